@@ -351,7 +351,8 @@ def _web_processor_faults(e0, e1, stage):
     to the robots.txt fetch (a cross-origin redirect of robots.txt included), later ones answer 200."""
     kinds = ['neterr', 'proto', 'ssl', 'refused', 'dns', (500, None), (200, None), (301, 'http://['), (301, None), (302, 'http://a.example/\x00'),
              (301, 'https://www.other.example/robots.txt'), (404, None), (301, 'http://[::1/next'), (303, '//[fe80::1/x'),
-             (200, None, (), 'neterr'), (200, None, (), 'proto')]
+             (200, None, (), 'neterr'), (200, None, (), 'proto'),
+             (301, 'mailto:some one@example.com'), (302, 'ftp://ftp.example.com/x'), (307, 'javascript:alert(1)'), (301, 'file:///etc/passwd')]
     a0, a1 = pick(kinds, e0), pick(kinds, e1)
 
     def answer(k, request):
@@ -450,8 +451,8 @@ HARNESSES = [
       samples=[(0,), (1,)], need=['set', 'ignored'], funcs=['wpull/writer.py:BaseFileWriterSession.set_timestamp'],
       doc='20 Last-Modified values (garbage, empty, impossible fields, years 0 / 1000 / 99999 / beyond time_t, obsolete formats, NUL) '
           'applied to the saved file: the timestamp is set or ignored, nothing is raised'),
-    H('web_processor_faults', '_web_processor_faults', 'e0: int, e1: int, stage: int', pre=['0 <= e0 <= 15 and 0 <= e1 <= 15'],
-      parts=[{'tag': 'plain', 'fix': {'stage': '0'}}] + [{'tag': 'robots_%d' % lo, 'fix': {'stage': '1'}, 'pre': ['%d <= e0 <= %d' % (lo, lo + 1)]} for lo in range(0, 16, 2)],
+    H('web_processor_faults', '_web_processor_faults', 'e0: int, e1: int, stage: int', pre=['0 <= e0 <= 19 and 0 <= e1 <= 19'],
+      parts=[{'tag': 'plain', 'fix': {'stage': '0'}}] + [{'tag': 'robots_%d' % lo, 'fix': {'stage': '1'}, 'pre': ['%d <= e0 <= %d' % (lo, lo + 1)]} for lo in range(0, 20, 2)],
       timeout={'quick': 250, 'thorough': 600}, samples=[(0, 0, 0), (7, 6, 0), (9, 1, 0), (10, 6, 1), (11, 6, 1)], need=['processed'],
       funcs=['wpull/processor/web.py:WebProcessorSession.process', 'wpull/processor/web.py:WebProcessorSession._fetch_one', 'wpull/protocol/http/web.py:WebSession._process_redirect'],
       doc='every pair of outcomes (5 error kinds, 5xx, 404, 200, redirect to an unparsable / missing / control-character / unterminated-IPv6 / '
